@@ -281,6 +281,23 @@ def err_name(e):
     return f"E_OTHER({type(e).__name__})"
 
 
+def align_class(pp):
+    """where in the body framing a feed_data() call stopped (used to identify WHICH stale-pause scenario stalls)"""
+    from aiohttp.http_parser import ChunkState, ParseState
+    if pp._type == ParseState.PARSE_LENGTH:
+        return "length"
+    if pp._type != ParseState.PARSE_CHUNKED:
+        return "until-eof"
+    st = pp._chunk
+    if st == ChunkState.PARSE_CHUNKED_SIZE:
+        return "aligned-after-chunk-crlf" if not pp._chunk_tail else "mid-size-line"
+    if st == ChunkState.PARSE_CHUNKED_CHUNK:
+        return "mid-chunk-data"
+    if st == ChunkState.PARSE_CHUNKED_CHUNK_EOF:
+        return "after-chunk-data-before-crlf"
+    return "in-trailers"
+
+
 class Pipeline:
     """one message body on the real objects"""
 
@@ -323,6 +340,7 @@ class Pipeline:
         self.req = None
         self.req_coro = None
         self.req_fut = None
+        self.parked_with_exc = None
 
     def start(self, head_and_first):
         """feed the header block (possibly with the first body bytes)"""
@@ -392,6 +410,8 @@ class Pipeline:
         except Exception as e:
             self.req_coro = None
             return "e=" + err_name(e)
+        # parked (again): was the payload exception already set when the new waiter was created?
+        self.parked_with_exc = self.payload._exception is not None
         return "blk"
 
     def state(self):
@@ -631,7 +651,32 @@ def _run_case(case, loop, rec, max_ops):
     if p.payload is None or type(p.payload).__name__ != "StreamReader":
         return None
     delivered = bytearray()
-    upbox = [p.proto.exception() if p.client else None]
+    # client: the exception that left feed_data lands in the DataQueue WITHOUT its cause; its kind is visible on
+    # the payload, which set_exception() reaches first in the same call.  Track the latest re-raised kind op by op
+    # (a later swallowed error, e.g. ContentEncodingError, overwrites the payload exception but is not re-raised).
+    upkind, last_pe = ["-"], [None]
+
+    def note_up():
+        if not p.client:
+            return
+        pe = p.payload._exception
+        if pe is not None and pe is not last_pe[0]:
+            last_pe[0] = pe
+            k = err_name(pe)
+            if k in ("E_TRANSFER_ENCODING", "E_INVALID_HEADER") and p.proto.exception() is not None:
+                upkind[0] = k
+    note_up()
+    # a pause request that survives the call which received it (parser returned NEEDS_INPUT, nothing pending):
+    # remember where in the framing that call stopped -- it identifies the stale-pause scenario if a stall follows
+    stale_birth = [None]
+    more_at_close = [None]
+
+    def note_stale():
+        parser = p.proto._parser
+        pp = parser._payload_parser if parser is not None else None
+        if pp is not None and pp._paused and not parser._payload_has_more_data:
+            stale_birth[0] = align_class(pp)
+    note_stale()
     final = None           # ("eof",) | ("err", name) | ("stuck", why)
     closed = False
     req_result = None
@@ -651,6 +696,8 @@ def _run_case(case, loop, rec, max_ops):
                 toks.append("D:" + hx(seg))
                 out = p.deliver(seg)
         elif k == "X":
+            parser = p.proto._parser
+            more_at_close[0] = bool(parser is not None and parser._payload_has_more_data)
             toks.append("X"); out = p.close(); closed = True
         elif k == "R":
             toks.append(f"R:{op[1]}"); out = p.read(op[1])
@@ -663,8 +710,9 @@ def _run_case(case, loop, rec, max_ops):
         else:
             raise ValueError(op)
         trace.append(out + "/" + p.state())
-        if k != "X" and not closed and p.client:
-            upbox[0] = p.proto.exception()
+        if k != "X" and not closed:
+            note_up()
+            note_stale()
         if k in ("R", "A"):
             if out.startswith("d="):
                 d = unhx(out[2:])
@@ -726,14 +774,9 @@ def _run_case(case, loop, rec, max_ops):
     line = (f"run {lax} {case['limit']} {fr} {1 if he else 0} {1 if he == 'deflate' else 0} {1 if he == 'deflate' else 0} {mt} "
             + " ".join(ks + toks))
     pstate = p.payload
-    up = p.up if not p.client else upbox[0]
-    from aiohttp.http_exceptions import HttpProcessingError
-    upname = "-"
-    if up is not None:
-        # client: DataQueue.set_exception drops the cause; the kind is visible on the payload (set first)
-        k = err_name(pstate._exception) if pstate._exception is not None else "-"
-        if not p.client:
-            k = err_name(up)
+    upname = upkind[0]
+    if not p.client and p.up is not None:
+        k = err_name(p.up)
         upname = k if k in ("E_TRANSFER_ENCODING", "E_INVALID_HEADER") else "-"
     left = 1 if (rec.calls and rec.calls[-1][2] is None) else 0
     impl = " ".join(trace) + f" peak={rec.peak} up={upname} left={left}"
@@ -741,7 +784,9 @@ def _run_case(case, loop, rec, max_ops):
             "wire_left": len(queue), "closed": closed, "req": req_result, "calls": rec.calls,
             "has_more": bool(p.parser._payload_has_more_data) if p.proto._parser is not None else None,
             "tr_paused": p.tr.paused, "size": pstate._size, "n_ops": len(trace),
-            "exc_pending": None if pstate._exception is None else err_name(pstate._exception)}
+            "exc_pending": None if pstate._exception is None else err_name(pstate._exception),
+            "stale_class": stale_birth[0] or "no-surviving-pause-flag-seen", "more_at_close": more_at_close[0],
+            "parked_with_exc": p.parked_with_exc}
     return {"line": line, "impl": impl, "info": info}
 
 
@@ -775,15 +820,27 @@ def oracle(ctx, case, info):
                               f"after {len(delivered)} bytes")
     # --- an error that is pending on the stream must reach a consumer that keeps reading
     if final[0] == "stuck" and info.get("exc_pending"):
-        ctx.violation("C09/error-not-reported/parked-reader-misses-exception", c,
-                      f"payload exception {info['exc_pending']} is set, the consumer that keeps reading stays parked forever")
+        if info.get("parked_with_exc"):
+            # the known scenario: the waiter was completed WITHOUT data (chunk end), the exception was set while no
+            # waiter was registered, the resumed coroutine re-parked without looking at _exception
+            ctx.violation("C09/error-not-reported/parked-reader-misses-exception", c,
+                          f"payload exception {info['exc_pending']} is set, the consumer that keeps reading stays parked forever "
+                          f"(it re-parked after the exception was set)")
+        else:
+            ctx.violation("C09/error-not-reported/exception-set-while-parked-not-delivered", c,
+                          f"payload exception {info['exc_pending']} was set while the reader was parked on a waiter and the waiter "
+                          f"was never failed: the consumer stays parked forever")
     # --- progress
     elif wire_ok and ref[0] == "ok" and info["wire_left"] == 0 or (wire_ok and ref[0] == "ok" and final[0] == "stuck"):
         if final[0] == "stuck":
+            fr = {"L": "length", "C": "chunked", "E": "until-eof"}[case["framing"]]
             if info["closed"]:
-                sig = "C09/lost-body/peer-close-while-decoder-pending"
+                sig = ("C09/lost-body/peer-close-while-decoder-pending" if info.get("more_at_close")
+                       else "C09/lost-body/peer-close-nothing-pending-no-eof")
             elif info["has_more"] and not info["tr_paused"]:
-                sig = "C09/no-progress/stale-parser-pause-pending-input"
+                # which call left the pause flag behind decides WHICH defect this is: the unchanged tree does it only
+                # when that call stopped between chunks (after the data, after the CRLF, inside the next size line)
+                sig = f"C09/no-progress/stale-parser-pause-pending-input/{fr}/{info.get('stale_class')}"
             elif info["tr_paused"]:
                 sig = "C09/no-progress/transport-left-paused"
             else:
@@ -795,11 +852,11 @@ def oracle(ctx, case, info):
                                       f"end-of-body ({final[1]}; {len(delivered)} bytes so far; has_more={info['has_more']}, "
                                       f"transport paused={info['tr_paused']})")
         elif final[0] == "err":
-            if final[1] == "E_TRANSFER_ENCODING" and info["closed"] and case["framing"] == "C":
+            if final[1] == "E_TRANSFER_ENCODING" and info["closed"] and case["framing"] == "C" and info.get("more_at_close"):
                 ctx.violation("C09/lost-body/peer-close-while-chunk-input-pending", c,
                               f"valid complete chunked body, peer closed after the last byte while the paused parser still "
                               f"held unparsed input: read raised TransferEncodingError after {len(delivered)} bytes")
-            elif final[1] == "E_CONN_CLOSED":
+            elif final[1] == "E_CONN_CLOSED" and info.get("more_at_close"):
                 ctx.violation("C09/lost-body/peer-close-while-decoder-pending", c,
                               f"valid complete body, peer closed after the last byte: read raised RuntimeError('Connection "
                               f"closed.') after {len(delivered)} bytes")
@@ -811,7 +868,8 @@ def oracle(ctx, case, info):
     if header_encoding(enc) and info["low"] < MAXSIZE:
         bound = info["high"] + 2 * max(limit, info["low"])
         if info["peak"] > bound:
-            if enc == "br" and info["peak"] <= bound + 2 * BROTLI_SLACK:
+            per_call_ok = all(o is None or m == 0 or len(o) <= m + BROTLI_SLACK for (_i, m, o, _a, _e) in info["calls"])
+            if enc == "br" and info["peak"] <= bound + 2 * BROTLI_SLACK and per_call_ok:
                 ctx.violation("C09/memory/brotli-overshoots-max-length", c,
                               f"peak buffered {info['peak']} > high_water {info['high']} + 2*max(limit, low_water) = {bound}: "
                               f"brotli returns up to one 32 KiB block per call whatever max_length says")
@@ -915,6 +973,11 @@ def finding_cases():
               "mode": "req", "close_after_wire": False, "close_early": False}
     out = [("F19", f19), ("stale-pause", stale), ("truncated", trunc), ("parked", parked)]
     wire = b"9\r\n" + b"X" * 9 + b"\r\n5\r\nhello\r\n0\r\n\r\n"
+    out.append(("stale-pause-before-crlf", dict(stale, wire_segs=[hx(b"9\r\n" + b"X" * 9), hx(b"\r\n5\r\nhello\r\n0\r\n\r\n")])))
+    out.append(("stale-pause-mid-size-line", dict(stale, wire_segs=[hx(b"9\r\n" + b"X" * 9 + b"\r\n5"), hx(b"\r\nhello\r\n0\r\n\r\n")])))
+    # probe (passes on the unchanged tree): the pausing read ends in the middle of a chunk's data -- there the parser
+    # does clear its pause flag before returning NEEDS_INPUT; a stall here is a different, unlisted violation
+    out.append(("probe-pause-mid-chunk-data", dict(stale, wire_segs=[hx(b"e\r\n" + b"X" * 9), hx(b"hello\r\n0\r\n\r\n")])))
     out.append(("chunk-close", {"side": "client", "enc": "identity", "limit": 4, "framing": "C", "body": hx(b"X" * 9 + b"hello"),
                                 "wire_segs": [hx(wire)], "merge_head": False, "ops": [], "shape": "text", "cms": 0, "post": False,
                                 "mode": "mixed", "close_after_wire": True, "close_early": False}))
@@ -973,7 +1036,7 @@ def vloop_scenarios(ctx):
     res, excs, quiescent = vloop.run(stale)
     ctx.case(("vloop", "stale"), sample={"vloop": "stale-pause", "result": repr(res), "quiescent": quiescent})
     if quiescent or res != b"XXXXXXXXXhello":
-        ctx.violation("C09/no-progress/stale-parser-pause-pending-input", finding_cases()[1][1],
+        ctx.violation("C09/no-progress/stale-parser-pause-pending-input/chunked/aligned-after-chunk-crlf", finding_cases()[1][1],
                       f"real ResponseHandler on the virtual-time loop: complete chunked body delivered, reader drained the first "
                       f"chunk, `await read()` never returns (loop quiescent={quiescent}, result={res!r})")
 
